@@ -400,6 +400,11 @@ fn execute(prog: Program) -> Outcome {
                     if matches!(cmd, Cmd::Watch | Cmd::Arbiter) {
                         s.exec("unwatch-all");
                     }
+                    if *cmd == Cmd::SetPermissions && !matches!(r.resp, Resp::Error(_)) {
+                        // the session under test (administrator with database d selected) has just
+                        // replaced u1's permission list itself: the model follows
+                        perms = Some("rwix *".to_string());
+                    }
                 } else {
                     let before = full_state(&w, &dbs);
                     let r = s.exec(&l);
